@@ -316,5 +316,6 @@ def substitute(text, bindings):
     """textual $var substitution on already merged text"""
     for var, toks in bindings.items():
         rep = ''.join(t.text for t in toks)
+        text = text.replace('${%s}' % var, rep)
         text = re.sub(r'\$' + var + r'\b', rep.replace('\\', r'\\'), text)
     return text
